@@ -175,6 +175,7 @@ type RunOut struct {
 	Unstable    bool // plan index out of range for the bound announced
 	NoRep       bool
 	Unannounced int
+	Prefetch    bool // some Read asked for more than one word: reads cannot be attributed to draws
 }
 
 // Run executes body once along plan (indices for the first draws; further
@@ -249,6 +250,7 @@ func (e *Enum) Run(plan []uint32, body func()) (out RunOut) {
 	spg.VerifSetDrawHook(nil)
 	out.Tape = t
 	out.Unannounced = t.Unannounced
+	out.Prefetch = t.MaxReq > 4
 	return out
 }
 
